@@ -10,7 +10,8 @@ P: Circuit.top_sort in BOTH directions — Kahn's algorithm over operand / user 
    by the prefix-count view.
    Circuit.dfs / Circuit.bfs (c20_trav.py) in both directions, from an arbitrary start sequence or the default one: the generator
    yields exactly the gates reachable from the start set (least closed set: soundness w.r.t. every closed set, completeness
-   as closedness of the yielded set), each exactly once; the circuit is untouched (default hooks).
+   as closedness of the yielded set), each exactly once; the circuit is untouched (default hooks). DFS hook discipline (positional stack,
+   recording ghost hooks): one enter and one exit hook per gate at most, enter before exit, exit hooks in post-order, all entered gates exited.
 B: top_sort in both directions, dfs/bfs from all start sets, hook discipline, cycle check (vlib/bounded/C20.py)."""
 import z3
 
@@ -285,7 +286,9 @@ def run(rep):
     rep.assume('dfs / bfs: proved (c20_trav.py) that they yield exactly the gates reachable from the start set, each once, for default (no-op) hooks; the work list is abstracted to a multiset with an arbitrary '
                'read position (sound for these clauses: they hold for every pop order); reachable = least set containing the start gates and closed under successors: soundness against an arbitrary closed set, '
                'completeness as closedness of the yielded set; precondition: the start gates are gates of the circuit')
-    rep.assume('hook discipline (enter before exit, post-order exits, unvisited hook incl. topsort_unvisited), visiting order and the cycle check are covered by the bounded stand-in only')
+    rep.assume('DFS hook discipline proved with a positional stack model and recording ghost hooks: at most one enter and one exit hook per gate, enter before exit, exit hooks in post-order '
+               '(every successor has exited before), every entered gate has exited when the generator stops; rank argument on the DAG (an ENTERED gate cannot be a successor of the top ENTERED gate)')
+    rep.assume('the unvisited hook (incl. topsort_unvisited), on_discover / on_traversal_end hooks, the BFS visiting order and the cycle check are covered by the bounded stand-in only')
     rep.assume('contract of get_gate_users used at its call sites: a list view with count cnt(label, .) and length tot(label) (absent key = empty list); its body is checked against it under C20/get_gate_users')
     it = new_interp()
     pv = Prover(rep, it, 'C20')
@@ -301,6 +304,12 @@ def run(rep):
                 it.loop_specs.clear()
                 it.contracts.clear()
                 pv.run_contract(Traverse(mode, inv, given))
+    # hook discipline of the depth-first traversal (positional stack model)
+    from .c20_trav import DfsOrder
+    for inv in (False, True):
+        it.loop_specs.clear()
+        it.contracts.clear()
+        pv.run_contract(DfsOrder(inv))
     it.loop_specs.clear()
     it.contracts.clear()
     pv.run_contract(GetGateUsers())
